@@ -399,7 +399,10 @@ PLANS["C07"] = {
         # every behaviour of CloverConc with two goroutines (initial content x pair of operations x order of the
         # Start / Finish steps), replayed on the real code with gates at the store's Begin and Commit
         {"kind": "lin", "name": "lin-sched", "n": (400, 1000000), "sched": ["MC_ConcEmit_badger.cfg", "MC_ConcEmit_bolt.cfg"],
+         "sched_risky": ["MC_ConcEmit_badger_risky.cfg"], "sched_sim_risky": [("MC_ConcEmit_badger3_risky.cfg", 200000)],
          "chunk": 20, "seed_off": 77},
+        # three goroutines: behaviours drawn by TLC's simulation mode (the exhaustive graph has 28 M states)
+        {"kind": "lin", "name": "lin-sched3", "n": (120, 6000), "sched_sim": ["MC_ConcEmit_badger3.cfg"], "chunk": 20, "seed_off": 91},
         {"kind": "race", "name": "race", "n": (24, 600), "maxg": 6},
     ],
 }
@@ -413,4 +416,4 @@ WARM_MC = [LAWS(f) for f in ("values", "criteria", "norm", "paths")] + [MC_PROPS
            MC("conc-badger-prerepair", "CloverConc", "MC_Conc_badger_prefix.cfg", workers=12, expect_violation="Linearizable"),
            KV_LAWS, KV_RESERVED, KV_FIXEDLEN]
 WARM_CONC = [{"module": "MC_ConcEmit", "cfg": c, "workers": 8, "heap": "8g", "name": "conc-emit"}
-             for c in ("MC_ConcEmit_badger.cfg", "MC_ConcEmit_bolt.cfg")]
+             for c in ("MC_ConcEmit_badger.cfg", "MC_ConcEmit_bolt.cfg", "MC_ConcEmit_badger_risky.cfg")]
